@@ -266,7 +266,15 @@ fn groups(r: &mut Rng) -> (Vec<Stanza>, Vec<String>) {
             st("(module) @d", vec![Stmt::Let(VarRef::Scoped(cap("d"), "tx".into()), call("node-type", vec![cap("d")]))]),
         );
         let body = vec![Stmt::Node(VarRef::Local("nm".into())), Stmt::AttrNode(Expr::Var("nm".into()), vec![("seen".into(), Expr::True)])];
-        let eager = match r.below(6) {
+        let eager = match r.below(7) {
+            6 => {
+                // a mutable variable that starts out local, is used as a condition and is
+                // then assigned a value derived from the scoped variable, inside a loop
+                let mut loop_body = vec![Stmt::If(vec![gen::IfArm { conds: vec![gen::Cond::Bool(Expr::Var("flag".into()))], body: body.clone() }])];
+                loop_body.push(Stmt::Set(VarRef::Local("flag".into()), call("eq", vec![sc("e", "tx"), Expr::Str("module".into())])));
+                out.insert(2, st("(module) @e", vec![Stmt::VarDecl(VarRef::Local("flag".into()), Expr::True), Stmt::For("x".into(), Expr::List(vec![Expr::Int(1), Expr::Int(2), Expr::Int(3)]), loop_body)]));
+                return (out, inherits);
+            }
             0 => Stmt::For(
                 "x".into(),
                 Expr::ListComp(Box::new(Expr::Scoped(Box::new(Expr::Var("y".into())), "tx".into())), "y".into(), Box::new(Expr::List(vec![cap("e")]))),
@@ -410,6 +418,23 @@ pub fn make_case(ctx: &ShardCtx, i: u64) -> Case {
     stanzas.extend(tail);
     while stanzas.len() > target.max(2).max(protected) {
         stanzas.pop();
+    }
+    if r.chance(1, 10) {
+        while stanzas.len() > 3usize.max(protected) {
+            stanzas.pop();
+        }
+        // a definition whose scope reads the variable being defined (on another node):
+        // recursive in every order
+        stanzas.push(st(
+            "(module . (_) @cs) @ca",
+            vec![
+                Stmt::Let(VarRef::Scoped(cap("ca"), "nx".into()), cap("cs")),
+                Stmt::Node(VarRef::Local("cn".into())),
+                Stmt::AttrNode(Expr::Var("cn".into()), vec![("last".into(), Expr::Scoped(Box::new(sc("ca", "nx")), "nx".into()))]),
+            ],
+        ));
+        // (the same query shape, so that the matches are met in stanza order)
+        stanzas.push(st("(module . (_) @_cz) @cb", vec![Stmt::Let(VarRef::Scoped(sc("cb", "nx"), "nx".into()), Expr::Str("end".into()))]));
     }
     for i in inherits {
         if !prog.inherits.contains(&i) {
